@@ -74,6 +74,46 @@ class Raised(object):
         return "Raised(%s: %s)" % (self.name, self.message)
 
 
+class ArgumentChanged(Exception):
+    """Reported (as a Raised value) when a call - returning or raising - left one of its array / dict / list arguments
+    different from what it was given: content, shape, dtype, strides or the writeable flag (arc removal, which is
+    documented to work in place, excepted)."""
+
+
+def _argument_state(arguments):
+    import copy
+    import numpy
+    state = []
+    for item in arguments:
+        if isinstance(item, numpy.ndarray):
+            state.append((item, item.shape, item.dtype, item.strides, bool(item.flags.writeable),
+                          numpy.array(item, copy=True) if item.size <= 4096 else None))
+        elif isinstance(item, (dict, list)) and len(item) <= 256:
+            try:
+                state.append((item, copy.deepcopy(item)))
+            except Exception:  # noqa - not copyable: not watched
+                pass
+    return state
+
+
+def _argument_change(state):
+    import numpy
+    for entry in state:
+        item = entry[0]
+        if isinstance(item, numpy.ndarray):
+            _, shape, dtype, strides, writeable, content = entry
+            if (item.shape, item.dtype, item.strides, bool(item.flags.writeable)) != (shape, dtype, strides, writeable):
+                return "an array argument came back with shape/dtype/strides/writeable %r, it was passed with %r" % (
+                    (item.shape, str(item.dtype), item.strides, bool(item.flags.writeable)),
+                    (shape, str(dtype), strides, writeable))
+            if content is not None and not numpy.array_equal(numpy.asarray(item), content):
+                return "the content of an array argument of shape %r was changed by the call" % (shape,)
+        elif not _equal(item, entry[1]):
+            return "a %s argument was changed by the call (now %s, was %s)" % (
+                type(item).__name__, str(item)[:60], str(entry[1])[:60])
+    return None
+
+
 class ResultNotReproducible(Exception):
     """Reported (as a Raised value) when the same call on the same arguments gives a different result after the
     caller overwrote its own copy of the first result - i.e. the library handed out shared or cached state."""
@@ -198,6 +238,8 @@ def lib_call(function, *args, **kwargs):
     sink = io.StringIO()
     old = sys.stdout
     sys.stdout = sink
+    watched = [] if getattr(function, "__name__", "") == "remove_nasty_arc" else \
+        _argument_state(list(args) + list(kwargs.values()))
     try:
         try:
             if CASE_IN_THREAD and threaded and sys.gettrace() is None:
@@ -207,7 +249,13 @@ def lib_call(function, *args, **kwargs):
             else:
                 first = _default_stack(function, args, kwargs)
         except Exception as exc:  # noqa - the library's contract is judged by the caller
+            changed = _argument_change(watched)
+            if changed:
+                return Raised(ArgumentChanged("%s (the call raised %s: %s)" % (changed, type(exc).__name__, exc)))
             return Raised(exc)
+        changed = _argument_change(watched)
+        if changed:
+            return Raised(ArgumentChanged(changed))
         import numpy
         if not twice or not isinstance(first, (numpy.ndarray, list, dict, tuple)):
             return first
